@@ -224,20 +224,49 @@ class PopFactory(object):
             self.classes[w] = (type("Ind%d" % len(self.classes), (list,), {}), F)
         return self.classes[w]
 
-    def make(self, w, vals):
+    def make(self, w, vals, vtype="float"):
+        """vtype: how the fitness values are handed to the setter (float / int / numpy scalars / mixed)."""
         I, F = self.cls(w)
+        conv = {"float": float, "int": int, "npfloat": numpy.float64, "npint": numpy.int64}
         pop = []
         for n, v in enumerate(vals):
             ind = I([n])
             ind.fitness = F()
-            ind.fitness.values = tuple(float(x) for x in v)
+            if vtype == "mixed":
+                ind.fitness.values = tuple([float, int, numpy.float64, numpy.int64][(n + c) % 4](x) for c, x in enumerate(v))
+            else:
+                ind.fitness.values = tuple(conv[vtype](x) for x in v)
             pop.append(ind)
         return pop
 
 
+def snapshot(pop):
+    """what a selection must not change: the list, the objects, their genomes and fitnesses"""
+    return [(id(p), list(p), tuple(p.fitness.values), tuple(p.fitness.wvalues)) for p in pop]
+
+
 def gen_values(rng, n, M, style=None):
     """n integer fitness vectors with M objectives."""
-    style = style or rng.choice(["grid", "grid", "grid", "dups", "collinear", "single", "layers", "wide"])
+    style = style or rng.choice(["grid", "grid", "grid", "dups", "collinear", "single", "layers", "wide", "ndups", "firsttie"])
+    if style == "ndups":
+        # an anti-chain (for all-min or all-max weights) with exact duplicates, plus points dominated by it
+        vals = []
+        for _ in range(n):
+            t = rng.randint(0, 3)
+            base_pt = [t, 3 - t] + [0] * (M - 2)
+            if rng.random() < 0.35:
+                base_pt = [x + rng.choice([0, 0.5, 1]) * 2 for x in base_pt]      # weakly / strictly worse or better copies
+                base_pt = [int(x) for x in base_pt]
+            vals.append(base_pt)
+        return style, vals
+    if style == "firsttie":
+        # many exact ties on the first objective, the dominated member often listed first
+        vals = [[rng.randint(0, 1)] + [rng.randint(0, 4) for _ in range(M - 1)] for _ in range(n)]
+        if rng.random() < 0.5:
+            vals.sort(key=lambda v: (v[0], -sum(v[1:])))
+        else:
+            vals.sort(key=lambda v: v[0])
+        return style, vals
     if style == "grid":
         hi = rng.choice([1, 2, 3, 6])
         return style, [[rng.randint(0, hi) for _ in range(M)] for _ in range(n)]
@@ -287,6 +316,12 @@ def main(run):
                 "plus float-valued populations (discrete part, association and oracle only); "
                 "niching replayed with the recorded shuffles; association checked in binary64 "
                 "within tolerance and exactly over Q on a robust subset. Reference points: every (M,p) in 2..6 x 1..8, scalings. "
+                "Hardening: sequences on the same objects (same population selected from repeatedly / reordered; selNSGA3WithMemory and the "
+                "hand-threaded best_point/worst_point/extreme_points/return_memory route; two interleaved clients sharing one reference array; "
+                "overwritten reference-point results), inputs snapshotted and compared after every call, value domains (int / numpy scalar "
+                "fitnesses, 1-ulp near-ties, +-0.0, 1e9 offsets with 1e-3 spread, 1e-9 scale, objectives offset by 10..1e9, float32 reference "
+                "points), exact duplicates of non-dominated points and first-objective ties, k at 1 / n / |nd|+-1 / cumulative front sizes +-1, "
+                "keyword / default-argument / numpy-integer routes, p = 9..12. "
                 "A case is distinct by its full input; non-trivial = more than one individual or a non-default parameter.")
     run.trusted += ["Coq 8.16.1 kernel and vm_compute",
                     "hand-written models coq/Model/C07_{Spea2,Nsga3,RefPoints}.v tied by correspondence (harness/c07.py)",
@@ -314,15 +349,22 @@ def main(run):
     # ------------------------------------------------------------------
     # SPEA2
     # ------------------------------------------------------------------
-    def spea2_case(w, vals, k, floats=False, record_selects=True):
-        pop = pf.make(w, vals)
+    def input_modified(what, case):
+        """the models read their inputs only: an implementation that changes them disagrees with the model"""
+        run.disagreements.append({"group": "inputs-unmodified", "index": None, "term": what, "case": case})
+
+    def spea2_case(w, vals, k, floats=False, record_selects=True, vtype="float", pop=None):
+        pop = pop if pop is not None else pf.make(w, vals, vtype)
         n = len(pop)
         idx = {id(p): i for i, p in enumerate(pop)}
         seed = rng.getrandbits(32)
+        before = snapshot(pop)
         with Recorder(emo, seed) as rec:
             res = guarded(tools.selSPEA2, pop, k)
-        case = {"kind": "spea2", "weights": list(w), "values": [list(v) for v in vals], "k": k, "seed": seed}
+        case = {"kind": "spea2", "weights": list(w), "values": [list(v) for v in vals], "k": k, "seed": seed, "vtype": vtype}
         note(case, n > 1)
+        if snapshot(pop) != before:
+            input_modified("selSPEA2 changed its input list / individuals / fitnesses", case)
         if res[0] != "ok":
             run.oracle_violation("selSPEA2 raised %s" % res[1], case)
             return
@@ -372,12 +414,41 @@ def main(run):
         for vals in itertools.product(pts, repeat=n):
             for k in range(1, n + 1):
                 spea2_case([-1, -1], [list(v) for v in vals], k, record_selects=False)
+    def boundary_k(n, marks):
+        """k at / next to the thresholds of the code: 1, n, and the given sizes +-1"""
+        cands = {1, n}
+        for m in marks:
+            cands |= {m - 1, m, m + 1}
+        return rng.choice(sorted(c for c in cands if 1 <= c <= n))
+
+    def nd_count(w, vals):
+        wv = [[x * y for x, y in zip(v, w)] for v in vals]
+        return sum(1 for i in range(len(wv)) if not any(dom(wv[j], wv[i]) for j in range(len(wv))))
+
     # random grids
-    for _ in range(run.scale(500, 6000)):
+    for _ in range(run.scale(620, 7000)):
         M = rng.randint(2, 5)
         n = rng.choice([1, 2, 3, 4, 5, 6, 8, 10, 12, 16, 20]) if rng.random() < 0.8 else rng.randint(1, 30)
         style, vals = gen_values(rng, n, M)
-        spea2_case(gen_weights(rng, M), vals, rng.randint(1, n))
+        w = gen_weights(rng, M)
+        if style in ("ndups", "firsttie") and rng.random() < 0.7:
+            w = [rng.choice([-1, -1, -2])] * M if rng.random() < 0.7 else [1] * M
+        k = boundary_k(n, [nd_count(w, vals)]) if rng.random() < 0.4 else rng.randint(1, n)
+        vtype = rng.choice(["float"] * 6 + ["int", "npfloat", "npint", "mixed"])
+        spea2_case(w, vals, k, vtype=vtype)
+    # the same population objects selected from repeatedly (no state may survive between calls) and in a
+    # second list holding the same objects in another order
+    for _ in range(run.scale(40, 400)):
+        M = rng.randint(2, 4)
+        n = rng.randint(2, 12)
+        style, vals = gen_values(rng, n, M)
+        w = gen_weights(rng, M)
+        pop = pf.make(w, vals)
+        for rep in range(3):
+            spea2_case(w, vals, rng.randint(1, n), pop=pop, record_selects=False)
+        perm = list(range(n))
+        rng.shuffle(perm)
+        spea2_case(w, [vals[i] for i in perm], rng.randint(1, n), pop=[pop[i] for i in perm], record_selects=False)
     # floats (bit-exact replay)
     for _ in range(run.scale(200, 3000)):
         M = rng.randint(2, 5)
@@ -387,17 +458,39 @@ def main(run):
             vals = [[rng.random() for _ in range(M)] for _ in range(n)]
         elif kind < 0.8:
             vals = [[rng.choice([0.1, 0.2, 0.3, 0.7, 1e8, 1e-7, -0.1]) for _ in range(M)] for _ in range(n)]
-        else:
+        elif kind < 0.9:
             vals = [[rng.uniform(-1e3, 1e3) for _ in range(M)] for _ in range(n)]
+        else:
+            # near-ties (1 ulp / 2^-40 relative), +-0.0, large offset with tiny spread, tiny scale
+            sub = rng.choice(["ulp", "zero", "offset", "tiny"])
+            if sub == "ulp":
+                b = [rng.choice([0.1, 1.0, 3.0]) for _ in range(M)]
+                vals = [[rng.choice([x, math.nextafter(x, 9.0), x * (1 + 2.0 ** -40), x]) for x in b] for _ in range(n)]
+            elif sub == "zero":
+                vals = [[rng.choice([0.0, -0.0, 1.0, -1.0]) for _ in range(M)] for _ in range(n)]
+            elif sub == "offset":
+                vals = [[1e9 + rng.choice([0.0, 1e-3, -1e-3, 2e-3]) for _ in range(M)] for _ in range(n)]
+            else:
+                vals = [[rng.randint(0, 3) * 1e-9 for _ in range(M)] for _ in range(n)]
         w = [rng.choice([1.0, -1.0, -0.3, 2.5]) for _ in range(M)]
-        spea2_case(w, vals, rng.randint(1, n), floats=True)
+        k = boundary_k(n, [nd_count(w, vals)]) if rng.random() < 0.3 else rng.randint(1, n)
+        spea2_case(w, vals, k, floats=True)
 
     # ------------------------------------------------------------------
     # reference points
     # ------------------------------------------------------------------
-    def ref_case(M, p, scaling):
-        res = guarded(tools.uniform_reference_points, M, p, scaling)
-        case = {"kind": "refpoints", "nobj": M, "p": p, "scaling": scaling}
+    def ref_case(M, p, scaling, route="pos"):
+        if route == "kw":
+            res = guarded(tools.uniform_reference_points, nobj=M, p=p, scaling=scaling)
+        elif route == "np":
+            res = guarded(tools.uniform_reference_points, numpy.int64(M), numpy.int64(p),
+                          None if scaling is None else numpy.float64(scaling))
+        elif route == "default":          # p omitted: the documented default p = 4
+            assert p == 4 and scaling is None
+            res = guarded(tools.uniform_reference_points, M)
+        else:
+            res = guarded(tools.uniform_reference_points, M, p, scaling)
+        case = {"kind": "refpoints", "nobj": M, "p": p, "scaling": scaling, "route": route}
         note(case, True)
         if res[0] != "ok":
             run.oracle_violation("uniform_reference_points raised %s" % res[1], case)
@@ -429,11 +522,27 @@ def main(run):
             ref_case(M, p, None)
     for M, p in [(1, 3), (1, 1)]:
         ref_case(M, p, None)
-    scal = [0.5, 1.0, 0.25, 0.3, 0.75, 0.9]
+    # beyond the quantifier range (the recursion must not depend on float remainders): p = 9..12
+    for M in range(3, run.scale(4, 6)):
+        for p in range(9, 13):
+            if math.comb(M + p - 1, p) <= 500:
+                ref_case(M, p, None)
+    scal = [0.5, 1.0, 0.25, 0.3, 0.75, 0.9, 1e-9, 1]
     for M in range(2, 7):
-        for p in range(1, run.scale(5, 9)):
-            if math.comb(M + p - 1, p) <= run.scale(130, 1300):
+        for p in range(1, 9):
+            if math.comb(M + p - 1, p) <= run.scale(330, 1300):
                 ref_case(M, p, rng.choice(scal))
+    # rarely used routes: keyword arguments, default p, numpy integer / float arguments; two results are independent arrays
+    for M in range(2, 7):
+        ref_case(M, 4, None, "default")
+        ref_case(M, rng.randint(1, 5), rng.choice([None, 0.5]), "kw")
+        ref_case(M, rng.randint(1, 5), rng.choice([None, 0.3]), "np")
+    # a caller that overwrites a returned array must not influence later calls (no cached result)
+    for M, p, sc in [(3, 4, None), (2, 5, 0.5), (4, 3, None)]:
+        a1 = tools.uniform_reference_points(M, p, sc)
+        a1 *= 0.0
+        a1[0, :] = 7.0
+        ref_case(M, p, sc)
 
     # ------------------------------------------------------------------
     # NSGA-III
@@ -455,7 +564,8 @@ def main(run):
         return numpy.concatenate((tools.uniform_reference_points(M, p, 1.0),
                                   tools.uniform_reference_points(M, p2, 0.5)), axis=0), {"p": p, "inner_p": p2}
 
-    def check_nsga3_call(pop, k, out, rec_fronts, rec_assoc, rec_nich, case, R):
+    def check_nsga3_call(pop, k, out, rec_fronts, rec_assoc, rec_nich, case, R, single=False):
+        # single=True: float32 reference points (the implementation then computes their norms in single precision)
         """Oracle for one selNSGA3 call + correspondence terms."""
         n = len(pop)
         idx = {id(p): i for i, p in enumerate(pop)}
@@ -503,7 +613,8 @@ def main(run):
                 fn = [(Fraction(x) - b) / d for x, b, d in zip(row, bestF, den)]
                 d2 = [perp_d2(fn, r) for r in refsF]
                 m = min(d2)
-                tol = Fraction(1, 10 ** 9) * (1 + sum(x * x for x in fn))
+                # rounding errors of the distance computation are relative to |fn|^2 (it is homogeneous in fn)
+                tol = Fraction(1, 10 ** 5 if single else 10 ** 9) * sum(x * x for x in fn) + Fraction(1, 10 ** 290)
                 if not (0 <= niche < len(refsF)) or d2[niche] > m + tol:
                     run.oracle_violation("selNSGA3 associated a candidate with a reference direction that is not the closest "
                                          "(perpendicular distance in the normalised space)", case,
@@ -513,7 +624,7 @@ def main(run):
                     break
                 srt = sorted(d2)
                 if len(srt) > 1 and not all(x == 0 for x in fn):
-                    if srt[1] < srt[0] + Fraction(1, 10 ** 6) * (1 + sum(x * x for x in fn)):
+                    if srt[1] < srt[0] + Fraction(1, 10 ** 6) * sum(x * x for x in fn):
                         robust = False
         # niche balance from the recorded association
         nlast = len(fronts[-1]) if fronts else 0
@@ -541,80 +652,153 @@ def main(run):
         if finite:
             add("nsga3", "CNsga3 %s %s %s %s %s %s %s %s" % (cnatll(fronts), cnat(k), cnat(R), cnatl(a["niches"]), cql(a["dist"]),
                                                               cnatll(nr["codes"]), cnatl(sel), cnatl(nr["counts1"])), case)
-            add("assocf", "CAssocF %s %s %s %s %s %s" % (cfll(a["fits"]), cfll(a["refs"]), cfl(a["best"]), cfl(a["icpt"]),
-                                                         cnatl(a["niches"]), cfl(a["dist"])), case)
+            if not single:
+                add("assocf", "CAssocF %s %s %s %s %s %s" % (cfll(a["fits"]), cfll(a["refs"]), cfl(a["best"]), cfl(a["icpt"]),
+                                                             cnatl(a["niches"]), cfl(a["dist"])), case)
             size = len(a["fits"]) * len(a["refs"]) * len(a["best"])
-            if robust and size <= 400 and budget["exact"] > 0:
+            if robust and not single and size <= 400 and budget["exact"] > 0:
                 budget["exact"] -= 1
                 add("exact", "CNsga3Q %s %s %s %s %s %s %s %s %s %s" % (
                     cqll(a["fits"]), cnatll(fronts), cnat(k), cqll(a["refs"]), cql(a["best"]), cql(a["icpt"]), cql(a["dist"]),
                     cnatll(nr["codes"]), cnatl(a["niches"]), cnatl(sel)), case)
 
-    def nsga3_case(memory_calls=0, floats=False):
+    class Client(object):
+        """One holder of NSGA-III memory: the class selNSGA3WithMemory, or selNSGA3 called with the
+        best_point / worst_point / extreme_points / return_memory arguments threaded by hand."""
+        def __init__(self, refs, nd, mode):
+            self.refs, self.nd, self.mode = refs, nd, mode
+            self.sel = tools.selNSGA3WithMemory(refs, nd) if mode == "class" else None
+            self.best = self.worst = self.ext = None
+            self.calls, self.obs = [], []
+            self.prev = (None, None)
+
+        def __call__(self, pop, k):
+            if self.mode == "class":
+                out = self.sel(pop, k)
+                self.best, self.worst, self.ext = self.sel.best_point, self.sel.worst_point, self.sel.extreme_points
+                return out
+            if self.best is None:
+                out, mem = tools.selNSGA3(pop, k, self.refs, self.nd, return_memory=True)
+            else:
+                out, mem = tools.selNSGA3(pop, k, ref_points=self.refs, nd=self.nd, best_point=self.best.reshape((1, -1)),
+                                          worst_point=self.worst.reshape((1, -1)), extreme_points=self.ext, return_memory=True)
+            self.best, self.worst, self.ext = mem.best_point, mem.worst_point, mem.extreme_points
+            return out
+
+    def nsga3_case(memory_calls=0, floats=False, mode="class", nclients=1):
         M = rng.randint(2, 5)
         w = gen_weights(rng, M) if not floats else [rng.choice([1.0, -1.0, -0.3, 2.5]) for _ in range(M)]
         refs, rinfo = make_refs(M)
+        single = (not memory_calls) and rng.random() < 0.05
+        if single:
+            refs = refs.astype(numpy.float32)
+            rinfo = dict(rinfo, dtype="float32")
+        refs_before = refs.copy()
         nd = rng.choice(["standard", "log"])
         seed = rng.getrandbits(32)
         ncalls = memory_calls or 1
-        selector = tools.selNSGA3WithMemory(refs, nd) if memory_calls else None
-        mem_calls, mem_obs = [], []
-        mem_prev = (None, None)
+        clients = [Client(refs, nd, mode) for _ in range(nclients)] if memory_calls else []
+        # per-objective integer offsets kept for all calls of the case (objectives far from the origin)
+        offs = [0] * M
+        if not floats and rng.random() < 0.3:
+            offs = [rng.choice([0, 10, -10, 1000, 10 ** 9, -10 ** 6]) for _ in range(M)]
         for call in range(ncalls):
+            cl = clients[call % nclients] if clients else None
             n = rng.choice([1, 2, 3, 4, 5, 6, 8, 10, 12, 16]) if rng.random() < 0.8 else rng.randint(1, 24)
             style, vals = gen_values(rng, n, M)
             if floats:
                 kind = rng.random()
                 style = "floats"
-                if kind < 0.6:
+                if kind < 0.5:
                     vals = [[rng.random() for _ in range(M)] for _ in range(n)]
-                elif kind < 0.8:
+                elif kind < 0.7:
                     vals = [[rng.choice([0.1, 0.2, 0.3, 0.7, 1e3, 1e-4, -0.1]) for _ in range(M)] for _ in range(n)]
-                else:
+                elif kind < 0.85:
                     vals = [[rng.uniform(-1e3, 1e3) for _ in range(M)] for _ in range(n)]
-            elif rng.random() < 0.15:
-                # objectives of very different magnitude (still exact integers): the ASF weights matter
-                big = [rng.random() < 0.5 for _ in range(M)]
-                vals = [[x * 10 ** 6 if bflag else x for x, bflag in zip(v, big)] for v in vals]
-                style += "+mixed-magnitude"
-            k = rng.randint(1, n)
-            pop = pf.make(w, vals)
+                else:
+                    sub = rng.choice(["offset", "tiny", "zero"])
+                    if sub == "offset":
+                        vals = [[1e9 + rng.choice([0.0, 1e-3, -1e-3, 2e-3]) for _ in range(M)] for _ in range(n)]
+                    elif sub == "tiny":
+                        vals = [[rng.randint(0, 3) * 1e-9 for _ in range(M)] for _ in range(n)]
+                    else:
+                        vals = [[rng.choice([0.0, -0.0, 1.0, -1.0]) for _ in range(M)] for _ in range(n)]
+            else:
+                if rng.random() < 0.15:
+                    # objectives of very different magnitude (still exact integers): the ASF weights matter
+                    big = [rng.random() < 0.5 for _ in range(M)]
+                    vals = [[x * 10 ** 6 if bflag else x for x, bflag in zip(v, big)] for v in vals]
+                    style += "+mixed-magnitude"
+                if any(offs):
+                    vals = [[x + o for x, o in zip(v, offs)] for v in vals]
+                    style += "+offset"
+            # k: random, or at / next to the cumulative front sizes (last front taken completely / by one)
+            if rng.random() < 0.4:
+                dep0 = depths([[x * y for x, y in zip(v, w)] for v in vals])
+                cums, tot = [], 0
+                for r in range(max(dep0) + 1):
+                    tot += dep0.count(r)
+                    cums.append(tot)
+                k = boundary_k(n, cums)
+            else:
+                k = rng.randint(1, n)
+            vtype = "float" if floats else rng.choice(["float"] * 6 + ["int", "npfloat", "npint", "mixed"])
+            pop = pf.make(w, vals, vtype)
+            route = "plain"
+            if cl is None and not single:
+                route = rng.choice(["plain"] * 5 + ["kw", "bestonly", "extonly"])
+                if route == "extonly" and floats:
+                    route = "kw"
             case = {"kind": "nsga3", "weights": w, "values": vals, "k": k, "nd": nd, "refs": rinfo, "seed": seed,
-                    "memory_call": call if memory_calls else None, "style": style}
+                    "memory_call": call if memory_calls else None, "style": style, "vtype": vtype, "route": route,
+                    "mode": mode if memory_calls else None, "client": (call % nclients) if clients else None}
             note(case, n > 1)
+            before = snapshot(pop)
             with Recorder(emo, seed + call) as rec:
-                if selector is not None:
-                    res = guarded(selector, pop, k)
+                if cl is not None:
+                    res = guarded(cl, pop, k)
+                elif route == "kw":
+                    res = guarded(tools.selNSGA3, individuals=pop, k=k, ref_points=refs, nd=nd, return_memory=False)
+                elif route == "bestonly":     # worst_point missing: the code must ignore best_point as well
+                    res = guarded(tools.selNSGA3, pop, k, refs, nd, best_point=numpy.array([[float(rng.randint(-5, 5)) for _ in range(M)]]))
+                elif route == "extonly":      # previous extreme points without best / worst memory
+                    res = guarded(tools.selNSGA3, pop, k, refs, nd,
+                                  extreme_points=numpy.array([[float(rng.randint(0, 6) + o) for o in offs] for _ in range(M)]))
                 else:
                     res = guarded(tools.selNSGA3, pop, k, refs, nd)
             if res[0] != "ok":
                 run.oracle_violation("selNSGA3 raised %s" % res[1], case)
                 return
+            if snapshot(pop) != before:
+                input_modified("selNSGA3 changed its input list / individuals / fitnesses", case)
+            if refs.dtype != refs_before.dtype or not numpy.array_equal(refs, refs_before):
+                input_modified("selNSGA3 changed the reference points it was given", case)
+                refs[...] = refs_before
             if len(rec.fronts) != 1 or len(rec.assoc) != 1 or len(rec.nich) != 1:
                 run.notes.append("nsga3: unexpected number of recorded helper calls %r" % ((len(rec.fronts), len(rec.assoc), len(rec.nich)),))
                 run.broken.append({"kind": "harness_recording", "where": ["harness/c07.py"], "log": "helper calls not recorded once"})
                 return
-            check_nsga3_call(pop, k, res[1], rec.fronts[0], rec.assoc[0], rec.nich[0], case, len(refs))
+            check_nsga3_call(pop, k, res[1], rec.fronts[0], rec.assoc[0], rec.nich[0], case, len(refs), single=single)
             if floats and len(rec.icpt) == 1:
                 # float populations: only the oracle (coordinatewise extremes, exact float min/max)
                 ic = rec.icpt[0]
                 frows = [[float(x) for x in r] for r in rec.assoc[0]["fits"]]
-                pb, pw = (mem_prev if selector is not None else (None, None))
+                pb, pw = (cl.prev if cl is not None else (None, None))
                 seen = frows + ([pb] if pb is not None else [])
                 seenw = frows + ([pw] if pw is not None else [])
                 if ([float(x) for x in ic["best"]] != [min(c) for c in zip(*seen)] or
                         [float(x) for x in ic["worst"]] != [max(c) for c in zip(*seenw)] or
                         [float(x) for x in ic["front_worst"]] != [max(c) for c in zip(*frows)]):
                     run.oracle_violation("selNSGA3: best/worst/front-worst point is not the coordinatewise extreme", case)
-                if selector is not None:
-                    mem_prev = ([float(x) for x in selector.best_point.reshape(-1)], [float(x) for x in selector.worst_point.reshape(-1)])
+                if cl is not None:
+                    cl.prev = ([float(x) for x in cl.best.reshape(-1)], [float(x) for x in cl.worst.reshape(-1)])
                 continue
             if len(rec.extreme) == 1 and len(rec.icpt) == 1:
                 ex, ic = rec.extreme[0], rec.icpt[0]
                 ints = lambda a: [int(x) for x in a]
                 rows = lambda m: [ints(r) for r in m]
                 fitrows = rows(rec.assoc[0]["fits"])
-                pb, pw = (mem_prev if selector is not None else (None, None))
+                pb, pw = (cl.prev if cl is not None else (None, None))
                 # oracle: best / worst / front-worst are the coordinatewise extremes
                 seen = fitrows + ([pb] if pb is not None else [])
                 seenw = fitrows + ([pw] if pw is not None else [])
@@ -625,36 +809,40 @@ def main(run):
                                                             czl(ints(ic["worst"])), czl(ints(ic["front_worst"]))), case)
                 add("points", "CExtreme %s %s %s %s" % (czll(rows(ex["fits"])), czl(ints(ex["best"])),
                                                         copt(None if ex["prev"] is None else rows(ex["prev"]), czll), czll(rows(ex["result"]))), case)
-            if selector is not None:
-                mem_prev = ([int(x) for x in selector.best_point.reshape(-1)], [int(x) for x in selector.worst_point.reshape(-1)])
-            if selector is not None:
+            if cl is not None:
+                cl.prev = ([int(x) for x in cl.best.reshape(-1)], [int(x) for x in cl.worst.reshape(-1)])
                 fits = rec.assoc[0]["fits"]
-                mem_calls.append([[int(x) for x in row] for row in fits])
-                mem_obs.append(([float(x) for x in selector.best_point.reshape(-1)],
-                                [float(x) for x in selector.worst_point.reshape(-1)],
-                                [] if selector.extreme_points is None else
-                                [[int(x) for x in row] for row in selector.extreme_points]))
-        if selector is not None and not floats:
-            case = {"kind": "nsga3-memory", "calls": mem_calls, "observed": mem_obs}
+                cl.calls.append([[int(x) for x in row] for row in fits])
+                cl.obs.append(([float(x) for x in cl.best.reshape(-1)],
+                               [float(x) for x in cl.worst.reshape(-1)],
+                               [] if cl.ext is None else [[int(x) for x in row] for row in cl.ext]))
+        for ci, cl in enumerate(clients):
+            if floats or not cl.calls:
+                continue
+            case = {"kind": "nsga3-memory", "calls": cl.calls, "observed": cl.obs, "mode": mode, "client": ci, "clients": nclients}
             note(case, True)
-            # oracle: the remembered best/worst points are the extremes over everything seen so far
+            # oracle: the remembered best/worst points are the extremes over everything THIS client has seen
             seen = []
-            for fits, (b, wst, _ext) in zip(mem_calls, mem_obs):
+            for fits, (b, wst, _ext) in zip(cl.calls, cl.obs):
                 seen += fits
                 if b != [float(min(c)) for c in zip(*seen)] or wst != [float(max(c)) for c in zip(*seen)]:
-                    run.oracle_violation("selNSGA3WithMemory: remembered best/worst point is not the extreme of the fitnesses seen", case)
-            add("memory", "CMem %s %s" % (clist([czll(c) for c in mem_calls]),
+                    run.oracle_violation("selNSGA3 memory: remembered best/worst point is not the extreme of the fitnesses seen", case)
+            add("memory", "CMem %s %s" % (clist([czll(c) for c in cl.calls]),
                                           clist(["(%s, %s, %s)" % (czl([int(x) for x in b]), czl([int(x) for x in wst]), czll(ext))
-                                                 for b, wst, ext in mem_obs])), case)
+                                                 for b, wst, ext in cl.obs])), case)
 
-    for _ in range(run.scale(350, 4000)):
+    for _ in range(run.scale(380, 4000)):
         nsga3_case()
-    for _ in range(run.scale(60, 700)):
+    for _ in range(run.scale(40, 500)):
         nsga3_case(memory_calls=rng.randint(2, 4))
+    for _ in range(run.scale(25, 300)):
+        nsga3_case(memory_calls=rng.randint(2, 4), mode="func")
+    for _ in range(run.scale(20, 250)):      # two clients sharing one reference-point array, interleaved
+        nsga3_case(memory_calls=rng.randint(3, 6), mode=rng.choice(["class", "func"]), nclients=2)
     for _ in range(run.scale(80, 900)):
         nsga3_case(floats=True)
     for _ in range(run.scale(15, 150)):
-        nsga3_case(memory_calls=rng.randint(2, 3), floats=True)
+        nsga3_case(memory_calls=rng.randint(2, 4), floats=True, mode=rng.choice(["class", "func"]), nclients=rng.choice([1, 2]))
 
     import time
     run.extra_cov["timing"] = {"generate_s": round(time.time() - run.t0, 1)}
